@@ -246,7 +246,7 @@ def operands(tier):
     ops = dsl.core_quantifier_ops() + dsl.group_ops() + dsl.anchor_ops()
     atoms = core if tier == 'thorough' else small
     partners = small if tier == 'thorough' else tiny
-    res = explore.run([dsl.atom(e, l) for e, l in atoms],
+    res = explore.run(dsl.safe_atoms(atoms),
                       [L(ops, dsl.binary_ops(), partners, (0, 1), 'depth 1'), L([], [], [], (0,), 'collect')],
                       [], nested_tail=False)
     return res
@@ -257,8 +257,7 @@ def run_C04(run):
     core = al.core_atoms()
     res = operands(run.tier)
     descs = {}
-    for e, l in core:
-        a = dsl.atom(e, l)
+    for a in dsl.safe_atoms(core, run):
         if rx.compiles(a.text)[0]:
             descs[explore.h64(a.key())] = explore.desc(a)
     descs.update(res['frontier'])
